@@ -280,6 +280,15 @@ def build(tier, repo):
     chk.note_analysed("default_length_expressions", nd)
     r7.require(12)
 
+    r8 = chk.rule("C17-R8", "zero-dimension fallbacks (y := beta*y) of gemv / gbmv and of the generic base.gemv scale the same y by the same beta as the main call",
+                  "the documented handling of zero dimensions")
+    from .. import kb_blas as kbb
+    nfb = cw.fallback_scale_rule(r8, c, "gemv", "gemv", kbb) + cw.fallback_scale_rule(r8, c, "gbmv", "gbmv", kbb)
+    cb = cf.load_c(repo, files=["base.c"])["base.c"]
+    nfb += cw.fallback_scale_rule(r8, cb, "base_gemv", "gemv", kbb)
+    chk.note_analysed("scal_fallbacks", nfb)
+    r8.require(6)
+
     r6 = chk.rule("C17-R6", "complex dot/dotu composed of the right four real dot products", "equals the mathematical definition")
     for fn, conj in (("dot", True), ("dotu", False)):
         if fn not in c.funcs:
